@@ -1186,7 +1186,15 @@ func (l *channelLink) resolveFwdPkg(fwdPkg *channeldb.FwdPkg) error {
 	// downstream logic is able to filter out any duplicates, but we must
 	// shove the entire, original set of adds down the pipeline so that the
 	// batch of adds presented to the sphinx router does not ever change.
-	if !fwdPkg.AckFilter.IsFull() {
+	//
+	// NOTE: A package without any Adds has a trivially full ack filter. If
+	// we went down before its FwdFilter was written, it is still in
+	// FwdStateLockedIn and must pass through processRemoteAdds once more,
+	// otherwise it would never be marked as processed and thus never be
+	// garbage collected.
+	if !fwdPkg.AckFilter.IsFull() ||
+		fwdPkg.State == channeldb.FwdStateLockedIn {
+
 		l.processRemoteAdds(fwdPkg)
 
 		// If the link failed during processing the adds, we must
